@@ -140,7 +140,10 @@ func runC15(c *core.Ctx, res *core.Result) {
 	if scen == "control" && healthy == 0 {
 		healthy = 1
 	}
-	cfg := kv.Cfg{MemTableSize: []int64{64 << 10, 32 << 20}[r.Intn(2)], MaxMemTables: 4, SyncMode: 0, CompactSecs: 3600}
+	// synchronous logging in every second scenario instance: the primary's OnWALSync path (primary lock taken on
+	// the write path) only runs when the log is synced
+	syncMode := []int{0, 2}[(c.Idx%len(scenarios)+c.Idx/len(scenarios)+1)%2]
+	cfg := kv.Cfg{MemTableSize: []int64{64 << 10, 32 << 20}[r.Intn(2)], MaxMemTables: 4, SyncMode: syncMode, CompactSecs: 3600}
 	pcfg := replication.DefaultPrimaryConfig()
 	hbTimeout := 2 * time.Second
 	pcfg.HeartbeatConfig = &replication.HeartbeatConfig{Interval: 500 * time.Millisecond, Timeout: hbTimeout, SendEmptyResponses: true}
@@ -156,7 +159,7 @@ func runC15(c *core.Ctx, res *core.Result) {
 		}
 	}()
 	feat := map[string]string{"scenario": scen, "healthy_peers": fmt.Sprint(healthy), "acking_peers_present": fmt.Sprint(healthy > 0)}
-	desc := fmt.Sprintf("scenario=%s healthy_peers=%d memtable=%d", scen, healthy, cfg.MemTableSize)
+	desc := fmt.Sprintf("scenario=%s healthy_peers=%d memtable=%d sync=%d", scen, healthy, cfg.MemTableSize, cfg.SyncMode)
 	// fault-free baseline latency
 	t0 := time.Now()
 	for i := 0; i < 200; i++ {
@@ -189,6 +192,7 @@ func runC15(c *core.Ctx, res *core.Result) {
 		}
 	}()
 	var flapStop atomic.Bool
+	var flaps atomic.Int64
 	var fwg sync.WaitGroup
 	badListen := "127.0.0.1:7999"
 	switch scen {
@@ -211,10 +215,25 @@ func runC15(c *core.Ctx, res *core.Result) {
 		go func() {
 			defer fwg.Done()
 			for !flapStop.Load() {
-				if p, err := startRawPeer(paddr, "ack", badListen); err == nil {
-					time.Sleep(time.Duration(2+frr.Intn(6)) * time.Millisecond)
-					p.stop()
+				// one peer, or a burst of peers whose sessions all end at the same instant
+				nb := 1
+				if frr.Chance(50) {
+					nb = frr.Range(2, 12)
 				}
+				var burst []*rawPeer
+				for i := 0; i < nb; i++ {
+					if p, err := startRawPeer(paddr, "ack", badListen); err == nil {
+						burst = append(burst, p)
+					}
+				}
+				time.Sleep(time.Duration(2+frr.Intn(6)) * time.Millisecond)
+				var bwg sync.WaitGroup
+				for _, p := range burst {
+					bwg.Add(1)
+					go func(p *rawPeer) { defer bwg.Done(); p.stop() }(p)
+				}
+				bwg.Wait()
+				flaps.Add(int64(len(burst)))
 			}
 		}()
 	case "proxy_stall", "proxy_cut":
@@ -299,6 +318,7 @@ loop:
 		return
 	}
 	fwg.Wait()
+	res.Count("peer_sessions_flapped", flaps.Load())
 	res.Count("client_calls", int64(nops))
 	res.Count("kb_written", int64(nops*4))
 	if w := time.Duration(worst.Load()); w > 5*time.Second {
